@@ -68,9 +68,9 @@ theorem abs_setEdgeMeta (s : Store) (e : RawEdge) (md : Meta) (h : Inv s) :
     | some id => exact ⟨abs_setEmeta s h k id hk md, rfl⟩
 
 theorem abs_setAttrEdge (s : Store) (e : RawEdge) (a v : Nat) (h : Inv s) :
-    abs (setAttrEdge s e a v).1 = (Spec.updEdgeMeta (abs s) e (fun md => some (AL.set md a v))).1 ∧
-    (setAttrEdge s e a v).2 = (Spec.updEdgeMeta (abs s) e (fun md => some (AL.set md a v))).2 := by
-  unfold setAttrEdge Spec.updEdgeMeta
+    abs (setAttrEdge s e a v).1 = (Spec.updEdgeMeta (abs s) e (setAttr a v)).1 ∧
+    (setAttrEdge s e a v).2 = (Spec.updEdgeMeta (abs s) e (setAttr a v)).2 := by
+  unfold setAttrEdge Spec.updEdgeMeta setAttr
   cases canonStrict e with
   | none => exact ⟨rfl, rfl⟩
   | some k =>
@@ -80,7 +80,9 @@ theorem abs_setAttrEdge (s : Store) (e : RawEdge) (a v : Nat) (h : Inv s) :
     | some id =>
       obtain ⟨m, hm⟩ := Option.isSome_iff_exists.mp (h.emeta_of_edge k id hk)
       simp only [Option.map_some, hm, Option.getD_some]
-      exact ⟨abs_setEmeta s h k id hk _, trivial⟩
+      by_cases ha : isVal m = true
+      · simp only [ha, if_true]; exact ⟨by first | trivial | rfl, by first | trivial | rfl⟩
+      · simp only [ha, Bool.false_eq_true, if_false]; exact ⟨abs_setEmeta s h k id hk _, by first | trivial | rfl⟩
 
 theorem abs_delAttrEdge (s : Store) (e : RawEdge) (a : Nat) (h : Inv s) :
     abs (delAttrEdge s e a).1 = (Spec.updEdgeMeta (abs s) e (Spec.delAttr a)).1 ∧
@@ -122,15 +124,17 @@ theorem Inv.nmeta_abs {s : Store} (h : Inv s) (n : Node) :
     | some x => rw [hq] at h2; cases h2
 
 theorem abs_setAttrNode (s : Store) (n : Node) (a v : Nat) (h : Inv s) :
-    abs (setAttrNode s n a v).1 = (Spec.updNodeMeta (abs s) n (fun md => some (AL.set md a v))).1 ∧
-    (setAttrNode s n a v).2 = (Spec.updNodeMeta (abs s) n (fun md => some (AL.set md a v))).2 := by
-  unfold setAttrNode Spec.updNodeMeta
+    abs (setAttrNode s n a v).1 = (Spec.updNodeMeta (abs s) n (setAttr a v)).1 ∧
+    (setAttrNode s n a v).2 = (Spec.updNodeMeta (abs s) n (setAttr a v)).2 := by
+  unfold setAttrNode Spec.updNodeMeta setAttr
   rw [h.nmeta_abs]
   cases hm : get? s.nmeta n with
   | none => exact ⟨rfl, rfl⟩
   | some m =>
     have hn : (get? s.adjS n).isSome := by rw [← h.nmeta_same, hm]; rfl
-    exact ⟨abs_setNmeta s h n hn _, rfl⟩
+    by_cases ha : isVal m = true
+    · simp only [ha, if_true]; exact ⟨by first | trivial | rfl, by first | trivial | rfl⟩
+    · simp only [ha, Bool.false_eq_true, if_false]; exact ⟨abs_setNmeta s h n hn _, by first | trivial | rfl⟩
 
 theorem abs_delAttrNode (s : Store) (n : Node) (a : Nat) (h : Inv s) :
     abs (delAttrNode s n a).1 = (Spec.updNodeMeta (abs s) n (Spec.delAttr a)).1 ∧
